@@ -56,6 +56,9 @@ def cases(tier, seed):
     for c in ds[:8 if tier == 'quick' else 150]:
         for s in SIMS:
             out.append(dict(c, k='default_tracer', sim=s, K=2))
+    for c in [c for c in ds if c['fam'] == 'SEQ'] + ds[:6 if tier == 'quick' else 60]:
+        for s in ('sim', 'fast'):
+            out.append(dict(c, k='two_sims', sim=s, K=2))
     return out
 
 
@@ -195,6 +198,62 @@ def do_default_tracer(case, ob, site):
                     goals.append(('default-trace:%s@%d' % (n, t), to_bv(got[n][t], w.bitwidth + 1) == to_bv(r.trace[n][t], w.bitwidth + 1),
                                   site + ':value'))
             ob.prove_all(goals, assume + list(p.pc) + list(r.pc), v, vacuity=False)
+
+
+def do_two_sims(case, ob, site):
+    """two simulators created one after the other on the same block with default arguments are independent: whatever the first
+    one was fed, the second starts from the declared reset state and empty memories (no state carried through shared defaults)"""
+    block = designs.build(case)
+    K, kind = case['K'], case['sim']
+    v1, v2 = Vars('first_'), Vars()
+    from .. import spec
+    assume = [z3.Not(d) for d in spec.run(block, K, v2, reg_init='reset', mem_init='default').double_write]
+    assume += [z3.Not(d) for d in spec.run(block, K, v1, reg_init='reset', mem_init='default').double_write]
+    with sym_env([block]):
+        ref = run_sim(block, K, v2, kind='sim', reg_init='reset', mem_init='default', track='io', assumptions=assume)
+
+    def ins(vv, t):
+        return {w.name: SymInt.mk(vv.inp(w.name, t, w.bitwidth), False) for w in block.wirevector_subset(pyrtl.Input)}
+
+    def run():
+        cls = pyrtl.Simulation if kind == 'sim' else pyrtl.FastSimulation
+        first = simdrv.symbolize_mems(cls(block=block), block, kind)
+        for t in range(K):
+            first.step(ins(v1, t))
+        second = cls(block=block)
+        # the second simulator's memories as it created them (an aliased default would already hold the first one's words)
+        polluted = []
+        for mid, m in simdrv.mems_of(block).items():
+            store = second.memvalue.get(mid) if kind == 'sim' else second.mems.get(second._mem_varname(m))
+            if isinstance(store, dict) and store:
+                polluted.append(m.name)
+            if store is not None and not isinstance(store, dict) and not isinstance(m, pyrtl.RomBlock):
+                polluted.append(m.name + ' (shared object)')
+        second = simdrv.symbolize_mems(second, block, kind)
+        for t in range(K):
+            second.step(ins(v2, t))
+        return {'trace': {n: list(second.tracer.trace[n]) for n in second.tracer.trace}, 'polluted': polluted}
+    with sym_env([block]):
+        paths = explore(run, assumptions=assume, max_paths=512)
+    ob.paths += len(paths) + len(ref)
+    for p in paths:
+        if p.exc is not None:
+            ob.prove('two-sims:no-exception(%s)' % type(p.exc).__name__, z3.Not(z3.And(*p.pc)) if p.pc else z3.BoolVal(False), assume, v2,
+                     site=site + ':exception')
+            continue
+        ob.fact('second-simulator-starts-with-empty-memories', not p.result['polluted'], site + ':memory-carried-over',
+                detail=p.result['polluted'])
+        for r in ref:
+            if r.exc is not None:
+                continue
+            goals = []
+            for w in block.wirevector_subset(pyrtl.Output):
+                if w.name in p.result['trace']:
+                    for t in range(K):
+                        goals.append(('second-simulator:%s@%d' % (w.name, t),
+                                      to_bv(p.result['trace'][w.name][t], w.bitwidth + 1) == to_bv(r.trace[w.name][t], w.bitwidth + 1),
+                                      site + ':value'))
+            ob.prove_all(goals, assume + list(p.pc) + list(r.pc), v2, vacuity=False)
 
 
 PH = re.compile(r'<<\d+(?::[a-z])?>>')
@@ -516,7 +575,7 @@ def do_illegal(case, ob, site):
 
 
 KINDS = {'inspect': do_inspect, 'step_multiple': do_step_multiple, 'vcd': do_vcd, 'print_trace': do_print_trace,
-         'rtl_assert': do_rtl_assert, 'default_tracer': do_default_tracer, 'illegal': do_illegal, 'step_multiple_resume': do_step_multiple_resume}
+         'rtl_assert': do_rtl_assert, 'default_tracer': do_default_tracer, 'two_sims': do_two_sims, 'illegal': do_illegal, 'step_multiple_resume': do_step_multiple_resume}
 
 
 def run_case(case, ob, tier):
